@@ -66,8 +66,8 @@ Proof. exact reduce_sched_indep. Qed.
 (* Non-vacuity: a candidate list with IGNORE, ACCEPT and a STOP suffix satisfies the contract. *)
 Definition ex_g := mkcfg 3 false false None false None 500 20 10 250.
 Definition ex_cands :=
-  [mkc INVALID 0 false false 0; mkc OK 1 false true 1; mkc OK 0 false true 1; mkc OK 0 false true 2;
-   mkc STOP 0 false false 0].
+  [mkc INVALID 0 false false 0 false; mkc OK 1 false true 1 false; mkc OK 0 false true 1 false; mkc OK 0 false true 2 false;
+   mkc STOP 0 false false 0 false].
 Example C02_contract_example :
   forallb (fun i => forallb (fun j => negb (i <? j) || negb (mayQ ex_g ex_cands i) || negb (isA ex_g ex_cands j))
                             (seq 0 5)) (seq 0 5) = true /\
@@ -76,6 +76,6 @@ Proof. vm_compute. auto. Qed.
 (* The contract is needed: with an ERROR before a success the parallel round can return the
    later success (wait_for_first_success ignores QUIT) while the sequential loop stops. *)
 Example C02_noncontract_differs :
-  let cs := [mkc INVALID 0 false false 0; mkc ERROR 0 false false 0; mkc OK 0 false true 1] in
+  let cs := [mkc INVALID 0 false false 0 false; mkc ERROR 0 false false 0 false; mkc OK 0 false true 1 false] in
   r_win _ (cround ex_g cs [0;0;0;0;0;0;0;0;0] (xinit 0 0)) = Some 2 /\ fst (cseq ex_g cs (xinit 0 0)) = None.
 Proof. vm_compute. auto. Qed.
